@@ -105,7 +105,11 @@ where
     const GRID: u64; // number of variates
     fn name() -> &'static str;
     fn variate(k: u64) -> Self; // k / GRID
-    fn rng_for(k: u64) -> SmallRng;
+    fn rng_for(k: u64) -> SmallRng {
+        Self::rng_pat(k, 1)
+    }
+    /// generator whose first variate is k/GRID and whose DISCARDED word bits follow pattern `pat` (common::discarded_bits)
+    fn rng_pat(k: u64, pat: u8) -> SmallRng;
     fn to64(self) -> f64;
 }
 impl UFloat for f32 {
@@ -116,8 +120,8 @@ impl UFloat for f32 {
     fn variate(k: u64) -> f32 {
         k as f32 / 16777216.0
     }
-    fn rng_for(k: u64) -> SmallRng {
-        rng_first_f32(k as u32)
+    fn rng_pat(k: u64, pat: u8) -> SmallRng {
+        crate::common::rng_first_f32_pat(k as u32, pat)
     }
     fn to64(self) -> f64 {
         self as f64
@@ -131,8 +135,8 @@ impl UFloat for f64 {
     fn variate(k: u64) -> f64 {
         k as f64 / 9007199254740992.0
     }
-    fn rng_for(k: u64) -> SmallRng {
-        rng_first_f64(k)
+    fn rng_pat(k: u64, pat: u8) -> SmallRng {
+        crate::common::rng_first_f64_pat(k, pat)
     }
     fn to64(self) -> f64 {
         self as f64
@@ -178,11 +182,17 @@ fn one_step<S: StateVal, F: UFloat>(cfg: &StepCfg<F>, x: &S, k: u64) -> Result<(
 where
     rand_distr::StandardUniform: rand_distr::Distribution<F>,
 {
+    one_step_pat::<S, F>(cfg, x, k, 1)
+}
+fn one_step_pat<S: StateVal, F: UFloat>(cfg: &StepCfg<F>, x: &S, k: u64, pat: u8) -> Result<(bool, u64, bool), String>
+where
+    rand_distr::StandardUniform: rand_distr::Distribution<F>,
+{
     let target = TableTarget { lp: vec![cfg.lp_x, cfg.lp_y] };
     let prop = TableProposal { next: 1, lq: vec![vec![F::zero(), cfg.q_fwd], vec![cfg.q_back, F::zero()]] };
     let mut chain = MHMarkovChain::<S, F, _, _>::new(target, prop, vec![x.clone()]);
-    chain.rng = F::rng_for(k);
-    let mut reference = F::rng_for(k);
+    chain.rng = F::rng_pat(k, pat);
+    let mut reference = F::rng_pat(k, pat);
     let st = catch(|| chain.step().clone())?;
     let _: F = reference.random();
     let premise = chain.rng == reference;
@@ -231,12 +241,13 @@ where
         ks.sort();
         ks.dedup();
         for x in S::odd_zero_states() {
-            for &k in ks.iter() {
+            for &(k, pat) in ks.iter().flat_map(|k| (0..4u8).map(move |p| (k, p))).collect::<Vec<_>>().iter() {
+                let k = *k;
                 let u = F::variate(k);
-                let case = json!({"level": "step", "state_ty": S::name(), "float_ty": F::name(), "lp_x": jf(cfg.lp_x.to64()), "lp_y": jf(cfg.lp_y.to64()), "q_fwd": jf(cfg.q_fwd.to64()), "q_back": jf(cfg.q_back.to64()), "k": k.to_string(), "x_bits": format!("{:x}", x.bits())});
+                let case = json!({"level": "step", "state_ty": S::name(), "float_ty": F::name(), "lp_x": jf(cfg.lp_x.to64()), "lp_y": jf(cfg.lp_y.to64()), "q_fwd": jf(cfg.q_fwd.to64()), "q_back": jf(cfg.q_back.to64()), "k": k.to_string(), "discarded_bits_pattern": pat, "x_bits": format!("{:x}", x.bits())});
                 ctx.evals(1);
                 ctx.transitions(1);
-                match one_step::<S, F>(&cfg, &x, k) {
+                match one_step_pat::<S, F>(&cfg, &x, k, pat) {
                     Err(m) => ctx.violation(Violation::new("C01:panic", format!("step panicked: {m}"), case)),
                     Ok((acc, bits, premise)) => {
                         if !premise {
@@ -593,7 +604,7 @@ pub fn run(ctx: &Ctx) {
         }
     }
     let _ = SmallRng::seed_from_u64(0);
-    ctx.rule("step level: (log p(x), log p(y), log q(y|x), log q(x|y)) over {ln1,ln2,ln3,-745,-inf,+inf,NaN}^2 x {0,ln1/2,ln1/4,-inf,NaN}^2 (1225 combinations) x state types {i32,f32,f64} (incl. -0.0 / NaN-payload / subnormal encodings of x) x float types {f32,f64}, acceptance draw injected through the public rng at {0, 1, 2 grid units, the exact accept/reject threshold and 3 neighbours either side, 1-ulp, 1/2}; for f32: ALL 2^24 variates for 9 branch classes; history level (E3): all sequences of <= 3 (4) operations {step to candidate y with u low / just accepting / just rejecting / high, relocate the public current_state, replace the public target} on one chain, the rule re-checked after every step against the actual state and target; kernel level: exact acceptance probabilities A(x,y) = #accepting variates / 2^24 on finite spaces K=2 (quick) / 2..4 (thorough), detailed balance and pi P = pi. states = distinct (types, combination) / kernel pairs; transitions = real step() calls");
+    ctx.rule("step level: (log p(x), log p(y), log q(y|x), log q(x|y)) over {ln1,ln2,ln3,-745,-inf,+inf,NaN}^2 x {0,ln1/2,ln1/4,-inf,NaN}^2 (1225 combinations) x state types {i32,f32,f64} (incl. -0.0 / NaN-payload / subnormal encodings of x) x float types {f32,f64}, acceptance draw injected through the public rng at {0, 1, 2 grid units, the exact accept/reject threshold and 3 neighbours either side, 1-ulp, 1/2} x 4 patterns of the generator word's DISCARDED bits (zeros, ones, rounding tie, just below the tie; full sweeps use all ones); for f32: ALL 2^24 variates for 9 branch classes; history level (E3): all sequences of <= 3 (4) operations {step to candidate y with u low / just accepting / just rejecting / high, relocate the public current_state, replace the public target} on one chain, the rule re-checked after every step against the actual state and target; kernel level: exact acceptance probabilities A(x,y) = #accepting variates / 2^24 on finite spaces K=2 (quick) / 2..4 (thorough), detailed balance and pi P = pi. states = distinct (types, combination) / kernel pairs; transitions = real step() calls");
     step_level::<i32, f32>(ctx);
     step_level::<i32, f64>(ctx);
     step_level::<f32, f32>(ctx);
@@ -615,12 +626,13 @@ pub fn run(ctx: &Ctx) {
 pub fn check_case(ctx: &Ctx, case: &Value) {
     if case["level"].as_str() == Some("step") {
         let k: u64 = case["k"].as_str().and_then(|s| s.parse().ok()).unwrap_or(0);
+        let pat: u8 = case["discarded_bits_pattern"].as_u64().unwrap_or(1) as u8;
         macro_rules! go {
             ($S:ty, $F:ty) => {{
                 let cfg = StepCfg::<$F> { lp_x: pf(&case["lp_x"]) as $F, lp_y: pf(&case["lp_y"]) as $F, q_fwd: pf(&case["q_fwd"]) as $F, q_back: pf(&case["q_back"]) as $F };
                 let xb = u64::from_str_radix(case["x_bits"].as_str().unwrap_or("0"), 16).unwrap_or(0);
                 let x = <$S as StateVal>::odd_zero_states().into_iter().find(|s| s.bits() == xb).unwrap_or(<$S as StateVal>::from_index(0));
-                if let Ok((acc, bits, _)) = one_step::<$S, $F>(&cfg, &x, k) {
+                if let Ok((acc, bits, _)) = one_step_pat::<$S, $F>(&cfg, &x, k, pat) {
                     let want = rule_accepts(cfg.lp_x, cfg.lp_y, cfg.q_fwd, cfg.q_back, <$F as UFloat>::variate(k));
                     if acc != want || (!acc && bits != x.bits()) {
                         ctx.violation(Violation::new("C01:rule(replay)", format!("variate {k}: rule says accept={want}, step accepted={acc}"), case.clone()));
